@@ -223,6 +223,15 @@ func (u *Universe) mapOrderClosed(s effSite) (bool, string) {
 					s2.node = n
 					closed, why = u.mapOrderClosed(s2)
 				}
+			case *ast.AssignStmt:
+				// x := call(); slices.SortFunc(x, ...) before any other use of x
+				if len(n.Lhs) == 1 && len(n.Rhs) == 1 && ast.Unparen(n.Rhs[0]) == call {
+					if id, ok := n.Lhs[0].(*ast.Ident); ok {
+						if obj := info.ObjectOf(id); obj != nil && sortedBeforeUse(info, s.fi.Decl.Body, obj, n.End()) {
+							closed, why = true, "assigned to "+id.Name+" and sorted before any other use"
+						}
+					}
+				}
 			}
 			return true
 		})
@@ -564,3 +573,31 @@ func (u *Universe) clockOnlyForLogging(s effSite) bool {
 func (u *Universe) frameHashedInputs() []FrameResult { return nil }
 func (u *Universe) frameOwnedPaths() []FrameResult  { return nil }
 func (u *Universe) frameMustRead() []FrameResult    { return nil }
+
+// sortedBeforeUse: the first mention of obj after pos is as the first argument
+// of a sort.* / slices.Sort* call.
+func sortedBeforeUse(info *types.Info, body *ast.BlockStmt, obj types.Object, pos token.Pos) bool {
+	var first *ast.Ident
+	ast.Inspect(body, func(n ast.Node) bool {
+		if id, ok := n.(*ast.Ident); ok && id.Pos() > pos && info.ObjectOf(id) == obj {
+			if first == nil || id.Pos() < first.Pos() {
+				first = id
+			}
+		}
+		return true
+	})
+	if first == nil {
+		return false
+	}
+	ok := false
+	ast.Inspect(body, func(n ast.Node) bool {
+		if call, isCall := n.(*ast.CallExpr); isCall && len(call.Args) > 0 && ast.Unparen(call.Args[0]) == ast.Expr(first) {
+			name := types.ExprString(call.Fun)
+			if strings.HasPrefix(name, "sort.") || strings.HasPrefix(name, "slices.Sort") {
+				ok = true
+			}
+		}
+		return true
+	})
+	return ok
+}
